@@ -656,7 +656,89 @@ def two_connections_case(ctx, case):
     ctx.label('two_connections')
 
 
-COMPONENTS = {'two_connections': two_connections_case,
+def flood_case(ctx, case):
+    """A listener answers one keep-alive by queueing n chat packets (a map
+    upload, a bulk command ...) - more than any everyday backlog.  The
+    keep-alive reply, queued by the built-in reaction just before, is still
+    sent (K1), and every one of the n packets reaches the server once, in
+    order (C01: no packet is lost).  case {version, compress, n, who:
+    'listener'|'user'}"""
+    import time
+    from minecraft.networking.packets import clientbound as cb, \
+        serverbound as sb
+    version, n = case['version'], case['n']
+    ctx.ev()
+    login = [('compress', case['compress'])] \
+        if case.get('compress') is not None else []
+    main = servers.Server({
+        'version': version, 'login': login + [('success',)],
+        'play': {'bursts': [[('keep_alive', {'keep_alive_id': 4242})]],
+                 'mode': 'all', 'end': 'silent'}})
+    world = vnet.World(servers=[main])
+    done = []
+    with vnet.installed(world):
+        conn, o = servers.make_connection(world, allowed_versions={version})
+
+        def burst(_p=None):
+            if not done:
+                done.append(1)
+                for i in range(n):
+                    conn.write_packet(sb.play.ChatPacket(message='m%d' % i))
+        if case.get('who', 'listener') == 'listener':
+            conn.register_packet_listener(burst, cb.play.KeepAlivePacket)
+        try:
+            conn.connect()
+            for _ in range(5000):
+                if main.play_started and main.link is not None and \
+                        main.replies:
+                    break
+                time.sleep(0.001)
+            if case.get('who') == 'user':
+                burst()
+            ok = main.link is not None and world.wait_idle(
+                main.link, conn, timeout=120.0)
+            excs = [repr(e[0]) for e in o.exceptions]
+            conn.disconnect()
+            state = world.settle(timeout=60.0)
+        except Exception as e:
+            ctx.fail('flood', 'K-raised', case, exc=e)
+            world.kill_all()
+            return
+    if not ok or state != 'done':
+        ctx.fail('flood', 'K4-thread-never-terminates', case, (ok, state))
+        world.kill_all()
+        return
+    if main.errors or excs:
+        ctx.fail('flood', 'K1-malformed-client-frames', case,
+                 (main.errors[:2], excs[:2]))
+        return
+    if main.replies != [('keep_alive', 4242)]:
+        ctx.fail('flood', 'K1K2-replies', case, main.replies[:4],
+                 [('keep_alive', 4242)])
+        return
+    chat_id = servers.packet_info(version, 'sb_chat')[0]
+    want_pl = servers.encode(version, 'sb_chat', message='m0')[1]
+    got = main.other_play_frames
+    bad = None
+    if len(got) != n:
+        bad = '%d packets arrived' % len(got)
+    else:
+        from vlib import wire
+        for i, (pid, pl) in enumerate(got):
+            if pid != chat_id or pl != wire.string('m%d' % i):
+                bad = 'packet %d is %r' % (i, (pid, pl[:12]))
+                break
+    if bad:
+        first = got[0][1][:12] if got else None
+        ctx.fail('flood', 'K3-queued-packets-lost-or-reordered', case,
+                 '%s; first %r' % (bad, first), '%d packets m0..' % n)
+        return
+    ctx.nt('flood', repr(case))
+    ctx.label('flood')
+
+
+COMPONENTS = {'flood': flood_case,
+              'two_connections': two_connections_case,
               'repeat': repeat_case, 'write_error': write_error_case,
               'history': history_case, 'real_history': real_history_case,
               'listener_disconnect': listener_disconnect_case}
@@ -866,6 +948,12 @@ def t_listener_disconnect(ctx, versions, n):
         lambda c, case: listener_disconnect_case(c, case), n)
 
 
+def t_flood(ctx, version, compress, n, who):
+    case = {'version': version, 'compress': compress, 'n': n, 'who': who}
+    flood_case(ctx, case)
+    ctx.sample(case, 'flood')
+
+
 def tasks(tier):
     q = tier == 'quick'
     from vlib import refproto
@@ -885,6 +973,13 @@ def tasks(tier):
     for i in range(1 if q else 4):
         tl.append(('real_%d' % i, t_real,
                    dict(versions=rel, n=12 if q else 150)))
+    for k, (v, comp, who) in enumerate(
+            [(757, None, 'listener'), (47, 64, 'user')] if q else
+            [(757, None, 'listener'), (47, 64, 'user'),
+             (340, 0, 'listener'), (578, None, 'user')]):
+        tl.append(('flood_%d' % k, t_flood,
+                   dict(version=v, compress=comp,
+                        n=70000 if q else 300000, who=who)))
     tl.append(('write_error', t_write_error, dict(versions=rel)))
     tl.append(('two_connections', t_two_connections,
                dict(n=15 if q else 400)))
